@@ -133,15 +133,65 @@ def build_model(d, two_sheets=None, max_formulas=11, names=False):
             made.append((sheet, slot))
             nform += 1
         avail = avail + made
-    return {'inputs': inputs, 'formulas': formulas, 'order': order,
-            'sheets': ['Sheet1'] + (['Sheet2'] if use2 else [])}
+    model = {'inputs': inputs, 'formulas': formulas, 'order': order,
+             'sheets': ['Sheet1'] + (['Sheet2'] if use2 else [])}
+    if use2 and d.pick(3) == 0:
+        # the second sheet under a name that is EASILY CONFUSED with the
+        # first: another letter case, the first name plus a suffix
+        model = rename_sheet(model, 'Sheet2', d.choice(
+            ['SHEET1', 'sheet1', 'Sheet10', 'Sheet1_', 'Sheet']))
+    return model
+
+
+def workbook_safe(model):
+    """a workbook cannot hold two sheets whose names differ only in letter
+    case: give the second one back its plain name"""
+    for s in model['sheets'][1:]:
+        if s.lower() == model['sheets'][0].lower():
+            return rename_sheet(model, s, 'Sheet2')
+    return model
+
+
+def rename_sheet(model, old, new):
+    """the same model with sheet `old` called `new` (addresses, references
+    inside formulas, sheet list)."""
+    def addr(a):
+        s, c = a.split('!')
+        return (new if s == old else s) + '!' + c
+
+    def tree(t):
+        k = t[0]
+        if k in ('ref', 'range'):
+            v = t[1]
+            return [k, addr(v) if '!' in v else v]
+        if k in ('neg', 'par', 'pos', 'pct'):
+            return [k, tree(t[1])]
+        if k == 'op':
+            return ['op', t[1], tree(t[2]), tree(t[3])]
+        if k == 'call':
+            return ['call', t[1], [tree(a) for a in t[2]]]
+        return t
+    out = dict(model)
+    out['inputs'] = {addr(a): v for a, v in model['inputs'].items()}
+    out['formulas'] = {addr(a): tree(t) for a, t in model['formulas'].items()}
+    out['order'] = [addr(a) for a in model['order']]
+    out['sheets'] = [new if s == old else s for s in model['sheets']]
+    return out
 
 
 def _operand(d, sheet, avail):
     if d.pick(4) == 0:
         return ['num', str(d.int(1, 9))]
     s, a = d.choice(avail)
-    return ['ref', _q(s, a, sheet)]
+    ref = ['ref', _q(s, a, sheet)]
+    k = d.pick(12)
+    if k == 0:
+        return ['neg', ref]             # =-A1+B1, =B1*-A1
+    if k == 1:
+        return ['par', ref]             # =(A1)+B1
+    if k == 2:
+        return ['neg', ['par', ref]]      # =-(A1)
+    return ref
 
 
 def _range(d, sheet, avail, level):
